@@ -69,7 +69,8 @@ def typed_config(cfg):
 # ------------------------------------------------------------------ generators
 FAST_KDFS = [{'n': 2}, {'n': 4}, {'n': 16, 'r': 2}, {'n': 1024, 'r': 1, 'p': 2}, {'n': 4, 'r': 8, 'p': 1}, {'name': 'blake2b'},
              {'name': 'scrypt', 'n': 8, 'r': 1}, {'n': 32768, 'r': 1}]
-JUNK_INTS = [0, 1, -1, -5, 2, 3, 7, 8, 12, 16, 24, 32, 63, 64, 65, 95, 96, 100, 127, 128, 129, 192, 224, 255, 256, 257, 384, 512, 1024, 1031, 1032, 65536, 1 << 40]
+JUNK_INTS = [0, 1, -1, -5, 2, 3, 7, 8, 9, 12, 15, 16, 17, 24, 32, 63, 64, 65, 95, 96, 100, 127, 128, 129, 191, 192, 193, 223, 224, 225, 255, 256, 257, 384, 512, 1024,
+             1031, 1032, 65536, 1 << 40]
 JUNK_FLOATS = [0.0, 1.0, 1.5, 8.0, 64.0, 96.0, 128.0, 256.0, 512.0, -2.5, 1e3, float('nan')]
 JUNK_STRS = ['', 'a', 'b', '64', 'blake2b', 'sha2', 'é']
 
@@ -162,6 +163,11 @@ def mutate(r, s):
         if slot == 'kdf' and p == 'length' and r.random() < 0.7:
             p = r.choice(['n', 'r', 'p'])
         v = junk_value(r)
+        if slot == 'chunking' and r.random() < 0.45:
+            # boundary of the constructor's comparison: relative to the other bound
+            other = sec.get('max_length' if p == 'min_length' else 'min_length', 128000 if p == 'max_length' else 5120000)
+            if isinstance(other, int) and not isinstance(other, bool):
+                v = other + r.choice([-2, -1, 0, 1, 2])
         # keep scrypt cheap: a huge valid cost parameter would only burn time/memory
         if slot == 'kdf' and isinstance(v, int) and not isinstance(v, bool) and v > 65536:
             v = 65536
@@ -201,7 +207,8 @@ def mutate(r, s):
             return s, 'key:top'
         if s.get('encryption', {}) is None:
             s['encryption'] = {}
-        s.setdefault('encryption', {})[r.choice(['mac', 'shared_kdf', 'hash', 'Cipher'])] = r.choice([{}, {'name': 'blake2b'}, 1])
+        s.setdefault('encryption', {})[r.choice(['mac', 'mac', 'shared_kdf', 'shared_kdf', 'hash', 'Cipher'])] = r.choice(
+            [{}, {'name': 'blake2b'}, 1, {'name': 'blake2b', 'length': 100}, {'length': 0}, {'name': 'sha2'}, {'name': 'scrypt', 'n': 3}, {'length': 1.5}])
         return s, 'key:encryption'
     if k < 0.96:      # a section of the wrong type
         which = r.choice(['hashing', 'chunking', 'encryption', 'cipher', 'kdf'])
@@ -256,6 +263,8 @@ CORPUS = [
     ({}, False, 'settings={} without password'),
     ({'encryption': {'kdf': {'n': 4}, 'mac': {}}}, True, 'unknown encryption key'),
     ({'hashing': 5}, True, 'hashing not a mapping'),
+    ({'encryption': {'kdf': {'n': 4}, 'mac': {'length': 100}}}, True, 'encryption.mac (read by _make_key, outside the schema)'),
+    ({'encryption': {'kdf': {'n': 4}, 'shared_kdf': {'name': 'scrypt', 'n': 3}}}, True, 'encryption.shared_kdf (read by _make_key, outside the schema)'),
 ]
 
 
@@ -309,6 +318,82 @@ def files_for(config):
     return FILES_SMALL
 
 
+MIN_DIGEST_BYTES = 16
+
+
+def _intlike(v):
+    return isinstance(v, int)      # bool included, as in Python
+
+
+def py_why(config, key):
+    """The specification `usable` evaluated on the implementation's own config / key (independent of the Lean model; adapter
+    kinds come from the real class hierarchy).  Returns the failing slots in the model's order and naming."""
+    from replicat.utils import adapters as A
+
+    def kind(name, base):
+        t = A._adapters_mapping.get(name) if isinstance(name, str) else None
+        return t is not None and issubclass(t, base)
+    why = []
+    h = config['hashing']
+    if not kind(h.get('name'), A.HashAdapter):
+        why.append('hashing:wrong-kind')
+    elif h['name'] == 'blake2b':
+        ln = h.get('length')
+        if not _intlike(ln):
+            why.append('hashing:blake2b:non-integer')
+        elif not 1 <= ln <= 64:
+            why.append('hashing:blake2b:out-of-range')
+        elif ln < MIN_DIGEST_BYTES:
+            why.append('hashing:blake2b:digest-too-short')
+    elif h['name'] in ('sha2', 'sha3'):
+        b = h.get('bits')
+        if not (isinstance(b, int) and not isinstance(b, bool) and b in (224, 256, 384, 512)):
+            why.append(f'hashing:{h["name"]}:parameters')
+    else:
+        why.append(f'hashing:{h["name"]}:parameters')
+    c = config['chunking']
+    if not kind(c.get('name'), A.ChunkerAdapter):
+        why.append('chunking:wrong-kind')
+    else:
+        mn, mx = c.get('min_length'), c.get('max_length')
+        if not (_intlike(mn) and _intlike(mx)):
+            why.append(f'chunking:{c["name"]}:non-integer')
+        elif mn < 1:
+            why.append(f'chunking:{c["name"]}:below-one')
+        elif mx < mn:
+            why.append(f'chunking:{c["name"]}:min-above-max')
+        elif c['name'] != 'gclmulchunker':
+            why.append(f'chunking:{c["name"]}:parameters')
+    if config.get('encryption') is not None:
+        ci = config['encryption']['cipher']
+        if not kind(ci.get('name'), A.CipherAdapter):
+            why.append('cipher:wrong-kind')
+        elif ci['name'] == 'aes_gcm':
+            kb, nb = ci.get('key_bits'), ci.get('nonce_bits')
+            if not (isinstance(kb, int) and not isinstance(kb, bool) and kb in (128, 192, 256)):
+                why.append('cipher:aes_gcm:key-bits')
+            elif not (_intlike(nb) and 8 <= nb // 8 <= 128):
+                why.append('cipher:aes_gcm:nonce')
+        elif ci['name'] != 'chacha20_poly1305':
+            why.append(f'cipher:{ci["name"]}:parameters')
+        k = (key or {}).get('kdf')
+        if k is None:
+            why.append('kdf:no-key')
+        elif not kind(k.get('name'), A.KDFAdapter):
+            why.append('kdf:wrong-kind')
+        elif k['name'] == 'scrypt':
+            ln, n, r, p = k.get('length'), k.get('n'), k.get('r'), k.get('p')
+            ok = all(_intlike(x) for x in (ln, n, r, p)) and ln >= 0 and n >= 2 and (n & (n - 1)) == 0 and r >= 1 and p >= 1 and n < 2 ** (16 * r)
+            if not ok:
+                why.append('kdf:scrypt:parameters')
+        elif k['name'] == 'blake2b':
+            if not (_intlike(k.get('length')) and 1 <= k['length'] <= 64):
+                why.append('kdf:blake2b:parameters')
+        else:
+            why.append(f'kdf:{k["name"]}:parameters')
+    return why
+
+
 def impl_case(case):
     """runs the real init; if accepted, the fresh unlock → snapshot → restore round trip"""
     from ..impl import c17_repo as R
@@ -318,13 +403,17 @@ def impl_case(case):
     be = res['backend']
     out = {'accepted': res['accepted'], 'error': res['error'], 'error_repr': res['error_repr'],
            'mutations': [list(m) for m in be.mutations], 'objects': sorted(be.objects),
-           'config': None, 'kdf': None, 'roundtrip': None}
+           'config': None, 'kdf': None, 'roundtrip': None, 'why': None}
     if res['accepted']:
         try:
             out['config'] = typed_config(res['config'])
             out['kdf'] = typed_section(res['key']['kdf']) if res['key'] is not None else None
         except Exception as e:  # noqa: BLE001
             out['config_error'] = repr(e)
+        try:
+            out['why'] = py_why(res['config'], res['key'])
+        except Exception as e:  # noqa: BLE001
+            out['why'] = ['unclassified:' + type(e).__name__]
         out['roundtrip'] = R.roundtrip(be, res['key'], pw, files_for(res['config']), _scratch)
     out['t'] = round(time.time() - t0, 3)
     return out
@@ -442,12 +531,12 @@ def check_case(out, case, im, m):
         if im['objects'] != ['config']:
             out.violation('settings:accepted-without-config', f'init returned normally but the backend holds {im["objects"]}', dict(replay, observed=im['objects']))
         if not rt['ok']:
-            why = (m or {}).get('why') or []
+            why = im['why'] or []
             out.violation(sig_for(why, rt),
                           f'init accepted {case["settings"]!r} and uploaded the config, but a fresh repository cannot back up and restore: '
                           f'{rt["stage"]}: {rt["error_repr"]}',
                           dict(replay, observed={'stage': rt['stage'], 'error': rt['error_repr']}, expected='unlock + snapshot + restore reproduce the tree',
-                               model_blames=why))
+                               specification_blames=why))
     # ---- correspondence with the model
     if m is None:
         return
@@ -470,6 +559,9 @@ def check_case(out, case, im, m):
         if m['kdf'] != im['kdf']:
             ok = False
             out.disagreement("key file's kdf section differs", dict(replay, model=m['kdf'], impl=im['kdf']))
+        if m['why'] != im['why']:
+            ok = False
+            out.disagreement(f'`usable` evaluated by the model ({m["why"]}) and on the implementation\'s config ({im["why"]}) differ', dict(replay, model=m))
         # validation of `usable` (third-party preconditions) against the libraries: usable ⇒ the round trip works
         if m['usable'] and not rt['ok']:
             ok = False
@@ -662,6 +754,14 @@ def run(out, drv, info):
             out.disagreement("add-key: new key's kdf section differs", dict(replay, model=m['kdf'], impl=im['kdf']))
         else:
             out.traces_validated += 1
+    out.extra['direct_oracle_findings_by_sig'] = _sig_histogram(out)
+
+
+def _sig_histogram(out):
+    h = {}
+    for v in out.violations:
+        h[v['sig']] = h.get(v['sig'], 0) + 1
+    return h
 
 
 def replay(path, drv):
